@@ -19,7 +19,11 @@ def queries(tier):
                    "source holds one of d/f/n/y/c/k/s (text of <= 4 symbolic characters or NULL) with a symbolic value, an empty value, or reset (NULL source)" % n,
             outside="title (heap string), generic assignment, alias names other than the ones used; kinds text/graph/world")
           for n in ((1, 2) if tier == "quick" else (1, 2, 3))]
-    return [col] + ax + [
+    CU = col.units
+    hexq = [Q("colour_html_%d" % n, "C20/color.c", units=CU, harness_defines={"HEXFORM": n}, unwind_default=12, stubs=["libc.c"], flags=["--max-field-sensitivity-array-size", "100"],
+              bounds="'#' followed by %d symbolic hex digits over {0,8,f,a,F,3,9,C}: components equal the digit pairs (alpha 255 when absent)" % n,
+              outside="other digits; colour names; printing") for n in (6, 8)]
+    return [col] + hexq + ax + [
         Q("line_scalar_props", "C20/line.c", units=U, unwind_default=16, fp=[(r"convert", ["h_conv"])],
           unwind={"harness": 30, "strcmp": 8, "strcasecmp": 8, "strncasecmp": 8, "strlen": 8, "memcmp": 30, "mpt_line_get": 12, "mpt_property_match": 12},
           flags=["--max-field-sensitivity-array-size", "100"], stubs=["libc.c"],
